@@ -43,7 +43,12 @@ FIXED = [
     ("C20", "2400262", "gitignore filtering with a relative root: entries were passed to libgit2 as displayed (`./a.log`, or relative to a cwd below the work tree), `from . gitignore` dropped every entry", ["git-dot-root", "git-relative-sub", "git-cwd-below"]),
     ("C20", "c2f47c2", "hgignore: `^rooted` regexps never matched (missing separator), glob tails unanchored (`*.log` hid a.logx), `?` matched a run of characters, unescaped literals", ["hg-glob-tail", "hg-rooted-regexp", "hg-qmark"]),
     ("C20", "e58d1ff", "dockerignore: patterns unrooted and tails unanchored, any matching `!` line won regardless of order", ["docker-rooted", "docker-negation-order", "docker-starstar"]),
+    ("C20", "4be56c6", "hgignore with the search root inside an ignored directory: an end-anchored pattern (`\\.log$`) matched the directory but not the entries below it, so `from repo/abc.log hgignore` listed everything", []),
 ]
+
+FIXED += [
+]
+
 
 _GIT_NEG_TREE = {"B": {"t": "d", "ch": {"a.log": {"t": "f", "c": ""}, "b.log": {"t": "f", "c": ""}}}, "a.log": {"t": "f", "c": ""}, "c.txt": {"t": "f", "c": ""}}
 
@@ -56,6 +61,13 @@ FIXED += [
 ]
 
 OPEN = [
+    {"id": "K03", "property": "C20", "signature": "C20/git/under-ignore/negation-inside-excluded-directory",
+     "what": "gitignore with the search root inside an excluded directory: `.gitignore` = `*.log`, `!a.log`, root `a3.log/` (a directory): "
+             "git cannot re-include a file whose parent directory is excluded, fselect lists `a3.log/a.log` - libgit2's "
+             "is_path_ignored applies the negation; only visible when the walk starts inside the excluded directory",
+     "pinned_case": {"tree": {"a3.log": {"t": "d", "ch": {"a.log": {"t": "f", "c": ""}, "b.log": {"t": "f", "c": ""}, "c.txt": {"t": "f", "c": ""}}},
+                              "z.txt": {"t": "f", "c": ""}},
+                     "tool": "git", "lines": ["*.log", "!a.log"], "root": "sub", "sub": "a3.log", "switch": "option", "mode": ""}},
     {"id": "K02", "property": "C11", "signature": "C11/split/root-word-shares-argument",
      "what": "argument splitting: when the query is split into several shell words and a search-root word shares its word with tokens "
              "that follow it (`fselect name from 'sub depth 1'`, `from 'a/b, d'`), the whole rest of the word is taken as the path: "
